@@ -46,12 +46,25 @@ class Audit:
                     paths = [args[idx]] if len(args) > idx else []
                 extra = args[1] if name == "open" and len(args) > 1 else None
                 flags = args[2] if name == "open" and len(args) > 2 else None
+                dir_fd = None
+                if name in ("os.remove", "os.rmdir", "os.mkdir", "os.chmod", "os.utime", "os.mkfifo", "os.mknod") and len(args) > 1:
+                    last = args[-1]
+                    if isinstance(last, int) and not isinstance(last, bool) and last >= 0 and name != "os.chmod":
+                        dir_fd = last
+                    elif name == "os.mkdir" and len(args) > 2 and isinstance(args[2], int) and args[2] >= 0:
+                        dir_fd = args[2]
                 for p in paths:
                     if isinstance(p, int) or p is None:
                         continue  # fd-based
                     if isinstance(p, bytes):
                         p = os.fsdecode(p)
-                    ev.append((name, str(p), extra, flags))
+                    p = str(p)
+                    if dir_fd is not None and not os.path.isabs(p):
+                        try:
+                            p = os.path.join(os.readlink(f"/proc/self/fd/{dir_fd}"), p)
+                        except OSError:
+                            pass
+                    ev.append((name, p, extra, flags))
             except Exception:
                 pass
 
